@@ -8,23 +8,23 @@ MC = "model_checking"
 CHECKS = {
  "C01": (MC, "TLC enumerates every line up to the per-definition bound over a generated family of conventional definitions (CmdLine.tla: acceptor with denotation; invariants TypeOK, Functional, AllDelivered, ExactlyOnce); every reachable state is replayed into the real parser and class+value compared; a seeded driver runs longer lines on larger definitions and TLC validates the recorded outcomes against the same specification; Sentence.tla (a declarative grammar) is checked equivalent to the acceptor on the same family.",
          "TLA+ acceptor (CmdLine.tla) model-checked with TLC; spec->impl replay of all states; impl->spec trace validation", "6 (C01)"),
- "C10": (MC, "Same specification with the help and version items in the alphabet at every position (HelpWins, HelpSticky checked by TLC); all states replayed, help identified by the command path on its usage line and version by the configured tag; driver lines with inserted help/version items validated by TLC.",
+ "C10": (MC, "Same specification with the help and version items in the alphabet at every position (HelpWins, HelpSticky checked by TLC); all states replayed, help identified by the command path on its usage line and version by the configured tag; driver lines with inserted help/version items validated by TLC; GroupLine.tla adds help next to and inside adjacent groups, adjacent subcommands (which command is described) and choices.",
          "TLA+ acceptor (CmdLine.tla: HelpWins/HelpSticky) model-checked with TLC; replay of all states; trace validation", "6 (C10)"),
  "C03": (MC, "SwapCommutes (exchange of two neighbouring occurrences feeding different fields leaves the outcome unchanged) is an invariant checked by TLC in every reachable state of CmdLine.tla; all lines (hence all permutations up to the bound) are replayed into the real parser; a driver compares every generated sentence with re-interleavings on the real parser and TLC validates all recorded outcomes.",
          "TLA+ invariant SwapCommutes model-checked with TLC; replay of all states; metamorphic driver + trace validation", "6 (C03)"),
  "C05": (MC, "ExactlyOnce (each typed item is stored in exactly one accumulator or the line is dead), AllDelivered and NoResurrection are checked by TLC on CmdLine.tla; every line up to the bound - every accepted line with every single insertion/duplication - is replayed and the value compared exactly; driver lines validated by TLC.",
          "TLA+ action property ExactlyOnce + invariants model-checked with TLC; replay of all states; trace validation", "6 (C05)"),
- "C06": (MC, "CmdLine.tla's Finish distinguishes absent from invalid per arity; TLC enumerates all lines over {valid, guard-failing, unconvertible} values under every arity and nesting; replay compares class/value and requires the message to carry the conversion or guard text whenever the specification accepts the repaired line.",
+ "C06": (MC, "CmdLine.tla's Finish distinguishes absent from invalid per arity; TLC enumerates all lines over {valid, guard-failing, unconvertible} values under every arity and nesting; replay compares class/value and requires the message to carry the conversion or guard text whenever the specification accepts the repaired line; `catch` (the documented exception) and environment-backed members of choices are part of the model.",
          "TLA+ acceptor model-checked with TLC; replay of all states with carried-text oracle; trace validation", "6 (C06)"),
- "C08": (MC, "Command trees of depth <= 3 (aliases, optional commands, leaf positionals); ScopeAfterCommand and HelpSticky checked by TLC; all lines up to the bound replayed incl. misplacements, unknown commands, help after each name (help path compared).",
+ "C08": (MC, "Command trees of depth <= 3 (aliases, optional commands, leaf positionals); ScopeAfterCommand and HelpSticky checked by TLC; all lines up to the bound replayed incl. misplacements, unknown commands, help after each name (help path compared); TreeLine.tla composes CmdLine and GroupLine (commands whose own level holds choices and adjacent groups): TScope states that the command's part of the outcome is its level run on its own on the items after the name; all lines replayed, hook events validated.",
          "TLA+ acceptor (frames per entered command) model-checked with TLC; replay of all states; trace validation", "6 (C08)"),
  "C09": (MC, "DashDash action property checked by TLC; 0..3 positionals of every strictness/arity, all lines up to the bound with `--` at every position and dash-looking data on both sides, replayed with exact values.",
          "TLA+ acceptor (posOnly, strictness in Finish) model-checked with TLC; replay of all states; trace validation", "6 (C09)"),
- "C18": (MC, "Environment states are part of the initial states of CmdLine.tla (every assignment of {unset, valid, unconvertible, guard-failing, non-UTF-8} to the declared variables); Finish consults a variable only when the item has no occurrence on the line; all (environment, line) states replayed with the process environment set accordingly, each also with an undeclared variable set.",
+ "C18": (MC, "Environment states are part of the initial states of CmdLine.tla (every assignment of {unset, valid, unconvertible, guard-failing, non-UTF-8} to the declared variables); Finish consults a variable only when the item has no occurrence on the line; all (environment, line) states replayed with the process environment set accordingly, each also with an undeclared variable set; GroupLine.tla does the same for environment-backed members of the branches of a choice.",
          "TLA+ acceptor with environment in the initial states, model-checked with TLC; replay of all states; trace validation", "6 (C18)"),
- "C07": (MC, "GroupLine.tla gives choices a declarative denotation (owners; greedy leftmost rounds for repeated choices); TLC enumerates all lines up to the bound over 2..4-branch choices under bare/optional/many/some, checks AltExclusive, and every state is replayed with exact values; driver lines validated by TLC (GroupLineTrace).",
+ "C07": (MC, "GroupLine.tla gives choices a declarative denotation (owners; greedy leftmost rounds for repeated choices); TLC enumerates all lines up to the bound over 2..4-branch choices under bare/optional/many/some, checks AltExclusive, and every state is replayed with exact values; driver lines validated by TLC (GroupLineTrace); the same choices inside subcommands (TreeLine.tla), where the scope does not start at the first item.",
          "TLA+ acceptor GroupLine.tla (choice denotation) model-checked with TLC; replay of all states; trace validation", "6 (C07)"),
- "C19": (MC, "GroupLine.tla models adjacent groups as blocks opened by the group's first item, filled by members, closed by anything else; AdjContiguous and CutKills are checked by TLC; all lines up to the bound (blocks at every position, split, cut, `--`/help inside) are replayed with exact values; driver lines validated by TLC.",
+ "C19": (MC, "GroupLine.tla models adjacent groups as blocks opened by the group's first item, filled by members, closed by anything else; AdjContiguous and CutKills are checked by TLC; all lines up to the bound (blocks at every position, split, cut, `--`/help inside) are replayed with exact values; driver lines validated by TLC; the same groups and adjacent subcommands inside ordinary subcommands (TreeLine.tla); which command a help request describes.",
          "TLA+ acceptor GroupLine.tla (block automaton) model-checked with TLC; replay of all states; trace validation", "6 (C19)"),
  "C02": (MC, "RespellStutters (every other spelling of an attached occurrence - other name, `=`, glued, detached - gives the same outcome) is an invariant checked by TLC in every state; the alphabet contains all five spellings x hostile byte values x name kinds, clusters of 2..3; all states replayed and values compared byte-exactly (bytes travel percent-encoded through TLC); the tokeniser alone is compared with Lex.tla (contract over bytes, design-checked) on every byte string up to length 4 [5] over a 9-byte alphabet through the tokens hook.",
          "TLA+ invariant RespellStutters model-checked with TLC; replay of all states with byte-exact values; trace validation", "6 (C02)"),
@@ -32,7 +32,7 @@ CHECKS = {
          "TLA+ process protocol (Process.tla) model-checked; trace validation of real process runs with TLC", "6 (C11)"),
  "C20": ("translation_validation", "The specification has no feature parameter: the same specification-generated cases (CmdLine and GroupLine replay sets) are run by six builds of the harness ({}, autocomplete, autocomplete+docgen+batteries+derive, dull-color, bright-color, default) and class, value and monochrome text must be identical across builds and conform to the specification.",
          "differential execution of TLC-generated cases across six feature builds, each checked against the TLA+ outcome", "6 (C20)"),
- "C14": (MC, "CmdLine.tla defines, for every viable state and partial last item, a lower bound MustOffer (visible names of the active level that extend a fresh prefix and are not already given; subcommand names that extend the typed word) and an upper bound MayOffer (visible matching names of the active or enclosing levels, completer values of the pending argument); TLC checks Must within May and enumerates every (state, partial); each request is run at revision 0 and the candidate set must lie between the bounds, the outcome being completion output.",
+ "C14": (MC, "CmdLine.tla defines, for every viable state and partial last item, a lower bound MustOffer (visible names of the active level that extend a fresh prefix and are not already given; subcommand names that extend the typed word) and an upper bound MayOffer (visible matching names of the active or enclosing levels, completer values of the pending argument); TLC checks Must within May and enumerates every (state, partial); each request is run at revision 0 and the candidate set must lie between the bounds, the outcome being completion output; GroupLine.tla gives the same bounds for a level with choices, adjacent groups and adjacent subcommands.",
          "TLA+ bounds MustOffer/MayOffer model-checked with TLC; replay of every (state, partial) completion request", "6 (C14)"),
  "C12": (MC, "HelpModel.tla computes Listing(level) from the definition (what must be listed, what must be mentioned nowhere, which names may appear in the item lists); the help of every reachable command level of generated definitions (aliases, hidden items, usage decorations, group headers, choices, adjacent groups, duplicates across alternatives) is tokenised by the harness and TLC compares the token sets and the block order; ListingConsistent is checked on the definitions; acceptance of listed names is C01's replay.",
          "TLA+ Listing (HelpModel.tla) evaluated by TLC on tokenised real help output of every command level", "6 (C12)"),
@@ -73,7 +73,7 @@ def main():
              {"name": "process", "path": "tla/Process.tla", "serves_properties": ["C11"],
               "kind_free_text": "TLA+ protocol of a process built around OptionParser::run(); ProcessTrace validates recorded runs of harness-app"},
              {"name": "groupline", "path": "tla/GroupLine.tla", "serves_properties": ["C07", "C19"],
-              "kind_free_text": "TLA+ acceptor for one level with choices and adjacent groups (extends CmdLine); TLC replay/trace configurations"}],
+              "kind_free_text": "TLA+ acceptor for one level with choices and adjacent groups (extends CmdLine; also used by C03 C05 C06 C10 C14 C17 C18 C20); TreeLine.tla composes it with CmdLine's command trees; TLC replay/trace configurations"}],
          "checks": [], "not_applicable": [],
          "notes": "bin/check <id> --tier quick|thorough; exit 0 held, 1 VIOLATION line, 2 infrastructure. known_findings.json lists recorded defects."}
     for p in props:
